@@ -117,6 +117,9 @@ pub struct Replay {
     ser: Ser,
     by_id: Vec<Option<&'static str>>,
     intern: Interner,
+    // oracle hits found while replaying (property, kind, op line, detail): written next to the answers as `<suite>.hits`
+    pub hits: Vec<(String, String, String, String)>,
+    cur_line: String,
 }
 
 // the unifier cells of one op line, by id; ids not described by a store are fresh empty cells
@@ -133,7 +136,7 @@ const TAGS: usize = 29;
 
 impl Replay {
     pub fn new() -> Self {
-        let mut r = Replay { ser: Ser::new(), by_id: vec![], intern: Interner(HashMap::new()) };
+        let mut r = Replay { ser: Ser::new(), by_id: vec![], intern: Interner(HashMap::new()), hits: vec![], cur_line: String::new() };
         r.global_name(0);
         r
     }
@@ -266,6 +269,7 @@ impl Replay {
     // ---- the ops -------------------------------------------------------------------------------------
     pub fn run_line(&mut self, line: &str) -> String {
         let Some(xs) = parse_line(line) else { return "bad-op".to_owned(); };
+        self.cur_line = line.to_owned();
         self.run_op(&xs).unwrap_or_else(|| "bad-op".to_owned())
     }
 
@@ -362,7 +366,26 @@ impl Replay {
                         let mut next = 0;
                         let ca = StoreSer::canon(names, &a, &mut map, &mut next);
                         let cb = StoreSer::canon(names, &b, &mut map, &mut next);
-                        format!("{res} | {ca} | {cb} | {ctx}")
+                        let answer = format!("{res} | {ca} | {cb} | {ctx}");
+                        if res {
+                            // C12, on the implementation itself: after a success the recorded solutions make the sides
+                            // unify again, and no cell reaches itself through its solution
+                            let hc0 = crate::de_bruijn::verif_hooks::OPEN_UNRESOLVED.with(|c| c.get());
+                            let again = guarded(|| unify(&a, &b, &mut dctx));
+                            let copied = crate::de_bruijn::verif_hooks::OPEN_UNRESOLVED.with(|c| c.get()) - hc0;
+                            if !matches!(again, Ok(true)) && copied == 0 {
+                                self.hits.push(("C12".into(), "solutions-do-not-make-terms-equal".into(), self.cur_line.clone(), format!("recorded operation: second unification gave {again:?}")));
+                            }
+                            for (k, cell) in cells.0.iter().enumerate() {
+                                let content = { cell.borrow().clone() };
+                                if let Some(sol) = content {
+                                    if cell_reaches(&sol, cell, &mut std::collections::HashSet::new()) {
+                                        self.hits.push(("C12".into(), "hole-solved-by-term-containing-itself".into(), self.cur_line.clone(), format!("recorded operation: cell {k}")));
+                                    }
+                                }
+                            }
+                        }
+                        answer
                     }
                 }
             }
@@ -477,6 +500,25 @@ fn synthetic_source(toks: &[Token]) -> Option<String> {
     String::from_utf8(b).ok()
 }
 
+// does `target` occur in `t`, directly or through solved cells?
+fn cell_reaches<'a>(t: &Term<'a>, target: &Cell<'a>, seen: &mut std::collections::HashSet<usize>) -> bool {
+    use Variant::*;
+    match &t.variant {
+        Unifier(c, _) => {
+            if Rc::ptr_eq(c, target) { return true; }
+            if !seen.insert(Rc::as_ptr(c) as usize) { return false; }
+            let content = { c.borrow().clone() };
+            content.map_or(false, |s| cell_reaches(&s, target, seen))
+        }
+        Lambda(_, _, a, b) | Pi(_, _, a, b) | Application(a, b) | Sum(a, b) | Difference(a, b) | Product(a, b) | Quotient(a, b)
+        | LessThan(a, b) | LessThanOrEqualTo(a, b) | EqualTo(a, b) | GreaterThan(a, b) | GreaterThanOrEqualTo(a, b) => cell_reaches(a, target, seen) || cell_reaches(b, target, seen),
+        Let(defs, body) => defs.iter().any(|(_, a, d)| cell_reaches(a, target, seen) || cell_reaches(d, target, seen)) || cell_reaches(body, target, seen),
+        Negation(a) => cell_reaches(a, target, seen),
+        If(a, b, c) => cell_reaches(a, target, seen) || cell_reaches(b, target, seen) || cell_reaches(c, target, seen),
+        _ => false,
+    }
+}
+
 pub fn run(ops_path: &str, out_path: &str) -> std::io::Result<()> {
     let input = std::io::BufReader::new(std::fs::File::open(ops_path)?);
     let mut out = BufWriter::new(std::fs::File::create(out_path)?);
@@ -489,5 +531,12 @@ pub fn run(ops_path: &str, out_path: &str) -> std::io::Result<()> {
         };
         writeln!(out, "{answer}")?;
     }
-    out.flush()
+    out.flush()?;
+    // oracle hits, in the format of `Out::hit`, next to the answers (`x.impl` -> `x.hits`)
+    if let Some(stem) = out_path.strip_suffix(".impl") {
+        let mut h = std::fs::OpenOptions::new().create(true).append(true).open(format!("{stem}.hits"))?;
+        let clean = |s: &str| s.replace('\t', " ").replace('\n', "\\n");
+        for (p, k, i, d) in &replay.hits { writeln!(h, "{}\t{}\t{}\t{}", p, k, clean(i), clean(d))?; }
+    }
+    Ok(())
 }
